@@ -349,7 +349,12 @@ func main() {
 	only := flag.Int("only", -1, "run only the case with this index (same seed, same script)")
 	buildfail := flag.Int("buildfail", 0, "N: requests per configuration through the real tcp/udp/icmp fillers, one in seven unbuildable")
 	poolrace := flag.Int("poolrace", 0, "K: runs with 64 generator workers and thousands of error-free requests (buffer pool under the highest turnover)")
+	callerblock := flag.Int("callerblock", 0, "K: cancel-while-the-write-path-is-blocked runs under the real startScanEngine")
 	flag.Parse()
+	if *callerblock > 0 {
+		runCallerBlock(*out, *seed, *callerblock)
+		return
+	}
 	if *buildfail > 0 {
 		runBuildFail(*out, *buildfail)
 		return
